@@ -1,0 +1,72 @@
+//go:build verif
+
+// Contracts for the prefix-delegation plugin, checked by /verif/govc (comment-only file).
+
+package prefix
+
+//@ guard Handler.Records by Mutex
+
+// key of the lease table: a function of the client identifier value (TRUSTED: string(d.ToBytes()))
+//@ pure func duidkey(d dhcpv6.DUID) string
+//@ func recordKey
+//@   trusted
+//@   modifies nothing
+//@   ensures ret == duidkey(d)
+
+//@ func samePrefix
+//@   modifies nothing
+//@   ensures (a == nil || b == nil) ==> !ret
+
+//@ func dup
+//@   requires src != nil
+//@   modifies nothing
+//@   ensures dst != nil && fresh(dst) && len(dst.IP) == 16 && len(dst.Mask) == 16
+
+//@ func addPrefix
+//@   requires resp != nil
+//@   modifies resp.Options
+//@   ensures len(resp.Options.Options) == old(len(resp.Options.Options)) + 1 && resp.IaId == old(resp.IaId)
+
+// state invariant of a Handler (established by setupPrefix, preserved by Handle)
+//@ pure func hinv(h *Handler) bool = h != nil && h.Records != nil && h.allocator != nil && awf(h.allocator)
+// what the Handler6 type contract asks every handler to leave alone
+//@ pure func frame6(req dhcpv6.DHCPv6, resp dhcpv6.DHCPv6) bool = *inner6(req) == old(*inner6(req)) && \
+//@     resp.(*dhcpv6.Message).MessageType == old(resp.(*dhcpv6.Message).MessageType) && resp.(*dhcpv6.Message).TransactionID == old(resp.(*dhcpv6.Message).TransactionID) && \
+//@     optn6(resp.(*dhcpv6.Message))[1] == old(optn6(resp.(*dhcpv6.Message))[1]) && optlast6(resp.(*dhcpv6.Message))[1] == old(optlast6(resp.(*dhcpv6.Message))[1]) && \
+//@     optn6(resp.(*dhcpv6.Message))[14] == old(optn6(resp.(*dhcpv6.Message))[14]) && sent == old(sent)
+
+//@ func (*Handler).Handle
+//@   implements handler.Handler6
+//@   requires hinv(h) && !held(h.Mutex)
+//@   modifies everything
+//@   preserves *h
+//@   ensures hinv(h) && !held(h.Mutex)
+// C08: every IA_PD of the request is answered by exactly one IA_PD (the response gains one
+// option 25 per request IA_PD) unless the handler gives up with (nil, stop)
+//@   ensures[C08:one-iapd-per-iapd] ret0 != nil ==> optn6(resp.(*dhcpv6.Message))[25] == old(optn6(resp.(*dhcpv6.Message))[25]) + len(iapds6(inner6(req).Options))
+//@   loop 1: invariant hinv(h) && !held(h.Mutex) && resp6ok(resp) && msg == inner6(req) && msg != nil && client != nil && frame6(req, resp)
+//@   loop 1: invariant forall i in 0..len(iapds6(msg.Options)): iapds6(msg.Options)[i] != nil
+//@   loop 1: invariant[C08] optn6(resp.(*dhcpv6.Message))[25] == old(optn6(resp.(*dhcpv6.Message))[25]) + rangeindex + 1
+//@   loop 1: invariant forall k uint16: k != 25 ==> optn6(resp.(*dhcpv6.Message))[k] == old(optn6(resp.(*dhcpv6.Message))[k])
+//@   loop 2: invariant hinv(h) && held(h.Mutex) && resp6ok(resp) && msg == inner6(req) && msg != nil && client != nil && frame6(req, resp) && iapdResp != nil && iapdResp.IaId == iapd.IaId && satisfied != nil && givenOut != nil && satisfied != givenOut
+//@   loop 2: invariant blen(satisfied) >= uint(len(hints)) && blen(givenOut) >= uint(len(knownLeases)) && (forall i in 0..len(hints): hints[i] != nil)
+//@   loop 2: invariant optn6(resp.(*dhcpv6.Message)) == atentry(optn6(resp.(*dhcpv6.Message)))
+//@   loop 3: invariant hinv(h) && held(h.Mutex) && resp6ok(resp) && msg == inner6(req) && msg != nil && client != nil && frame6(req, resp) && iapdResp != nil && iapdResp.IaId == iapd.IaId && satisfied != nil && givenOut != nil && satisfied != givenOut
+//@   loop 3: invariant blen(satisfied) >= uint(len(hints))
+//@   loop 3: invariant blen(givenOut) >= uint(len(knownLeases))
+//@   loop 3: invariant forall i in 0..len(hints): hints[i] != nil
+//@   loop 3: invariant h$2 != nil
+//@   loop 3: invariant optn6(resp.(*dhcpv6.Message)) == atentry(optn6(resp.(*dhcpv6.Message)))
+//@   loop 4: invariant hinv(h) && held(h.Mutex) && resp6ok(resp) && msg == inner6(req) && msg != nil && client != nil && frame6(req, resp) && iapdResp != nil && iapdResp.IaId == iapd.IaId && satisfied != nil && givenOut != nil && satisfied != givenOut
+//@   loop 4: invariant blen(satisfied) >= uint(len(hints)) && blen(givenOut) >= uint(len(knownLeases)) && (forall i in 0..len(hints): hints[i] != nil)
+//@   loop 4: invariant optn6(resp.(*dhcpv6.Message)) == atentry(optn6(resp.(*dhcpv6.Message)))
+//@   loop 5: invariant hinv(h) && held(h.Mutex) && resp6ok(resp) && msg == inner6(req) && msg != nil && client != nil && frame6(req, resp) && iapdResp != nil && iapdResp.IaId == iapd.IaId && satisfied != nil && givenOut != nil && satisfied != givenOut
+//@   loop 5: invariant blen(satisfied) >= uint(len(hints)) && blen(givenOut) >= uint(len(knownLeases)) && (forall i in 0..len(hints): hints[i] != nil) && h$3 != nil
+//@   loop 5: invariant optn6(resp.(*dhcpv6.Message)) == atentry(optn6(resp.(*dhcpv6.Message)))
+//@   loop 6: invariant hinv(h) && held(h.Mutex) && resp6ok(resp) && msg == inner6(req) && msg != nil && client != nil && frame6(req, resp) && iapdResp != nil && iapdResp.IaId == iapd.IaId && satisfied != nil && givenOut != nil && satisfied != givenOut
+//@   loop 6: invariant blen(satisfied) >= uint(len(hints)) && (forall i in 0..len(hints): hints[i] != nil)
+//@   loop 6: invariant optn6(resp.(*dhcpv6.Message)) == atentry(optn6(resp.(*dhcpv6.Message)))
+// C09: every prefix allocated while answering this IA_PD is in the list that is recorded for the client
+//@   loop 6: invariant[C09:every-new-lease-is-recorded] (newLeases == nil ==> alloc_ok == atentry(alloc_ok)) && (newLeases != nil ==> len(newLeases) == len(knownLeases) + (alloc_ok - atentry(alloc_ok)))
+// C09: a hint that carries no address is an empty hint (it must not be compared with ::)
+//@   assert[C09:addressless-hint-is-empty] before "h.Prefix.IP.Equal(net.IPv6zero)": h$3.Prefix.IP != nil
